@@ -237,6 +237,12 @@ class PyProperty(PyVal):
         self.fget, self.fset = fget, fset
 
 
+class PyNav(PyVal):
+    """navigation expression under construction: one(x).KL[rel, 'phrase']...  (the DSL of xtuml.meta.NavChain)"""
+    def __init__(self, kind, handle, chain='', pending=None):
+        self.kind, self.handle, self.chain, self.pending = kind, handle, chain, pending
+
+
 class SpecFn(PyVal):
     def __init__(self, name):
         self.name = name
